@@ -380,7 +380,7 @@ class Area:
             rep.cov["evaluations"] += n_events
         return tpath
 
-    def selftest(self, tpath, corrupt, what, limit=20000):
+    def selftest(self, tpath, corrupt, what, limit=400000):
         """Binding self-test (DESIGN.md 2.6): a recorded trace with one corrupted observation must be rejected."""
         ev = []
         with open(tpath) as f:
@@ -388,10 +388,15 @@ class Area:
                 ev.append(json.loads(line))
                 if len(ev) >= limit:
                     break
-        # cut at the last complete run
         bad = corrupt(ev)
         if bad is None:
             raise ToolError("binding self-test: nothing to corrupt (%s)" % what)
+        # keep only the run that contains the corrupted event
+        k = next((i for i in range(min(len(ev), len(bad))) if ev[i] != bad[i]), None)
+        if k is not None:
+            a = max(i for i in range(k + 1) if bad[i].get("ev") == "Reset")
+            b = next((i for i in range(k + 1, len(bad)) if bad[i].get("ev") == "Reset"), len(bad))
+            bad = bad[a:b]
         bpath = os.path.join(self.rep.workdir, "trace-corrupt.ndjson")
         write_ndjson(bpath, bad)
         probe = Report(self.rep.pid, self.rep.tier, self.rep.seed, self.rep.workdir)
